@@ -103,6 +103,9 @@ sys.exit(1 if bad else 0)
 
 
 def replay(ob):
+    if "valid_to_replace" in ob["name"]:
+        from props import C07
+        return C07.NOT_REMOVABLE
     if "match_constant.list" in ob["name"]:
         return LIST_CONST
     if "a_false_result_is_recorded_as_a_failed_match" in ob["name"]:
